@@ -188,6 +188,20 @@ def check_case(spec, flts, exclude, challenge_pos, res, capped=False):
             oth_names = [t.name for t in c_other.schedule]
             if v is None and oth_names != oth_want:
                 v = ("other-challenge-not-filtered", f"second challenge has {oth_names}, expected {oth_want}")
+        if v is None and not c_main.schedule:
+            # filters that leave nothing: still runnable (one idle client, no step), the driver must be able to start and finish
+            try:
+                from esrally.driver import driver as drv
+
+                al = drv.Allocator([])
+                if al.clients != 1 or len(al.join_points) != 1 or al.tasks_per_joinpoint != [] or len(al.allocations) != 1:
+                    v = ("empty-schedule-allocation", f"clients={al.clients} join points={len(al.join_points)} task sets={al.tasks_per_joinpoint}")
+            except Exception as e:  # noqa
+                v = ("empty-schedule-not-runnable", f"Allocator on the empty filtered schedule: {type(e).__name__}: {e}")
+            if v is None:
+                w = sc.check_start_benchmark([])
+                if w and w != "skipped":
+                    v = ("empty-schedule-" + w[0], w[1])
         if v is None and c_main.schedule:
             a = sc.check_allocator(c_main.schedule)
             if a:
